@@ -50,10 +50,10 @@ fn text_ranges(quick: bool) -> Vec<(u64, u64)> {
     if !quick {
         return vec![(0, ALL)];
     }
-    // |x| < 2^25 (|value| < 32.0: every value that is legal as a font dimension, |value| < 16.0, and as many again) ...
-    let mut r = vec![(0, 1 << 25), (ALL - (1 << 25), ALL)];
+    // |x| < 2^24 (every value that is legal as a font dimension, |value| < 16.0) ...
+    let mut r = vec![(0, 1 << 24), (ALL - (1 << 24), ALL)];
     // ... and windows of +-4096 around +-2^k up to the ends of the 32-bit range
-    for k in 25..=31u32 {
+    for k in 24..=31u32 {
         let p = 1u64 << k;
         r.push((p.saturating_sub(4096), (p + 4096).min(ALL)));
         let q = ALL - p;
@@ -281,8 +281,9 @@ fn sweep_design_sizes(quick: bool) -> Vec<i32> {
     let ten = 10 << 20;
     let s1728 = (17 << 20) + ((28i64 << 20) / 100) as i32;
     let big = i32::MAX - 5; // 2047.99999 pt: z needs four halvings
-    let mut v = vec![1 << 20, (1 << 20) + 16, 5 << 20, ten, 12 << 20, s1728, (127 << 20) + 1038090, (128 << 20) - 16, 128 << 20, (255 << 20) + 999, (1000 << 20) + 123456, big];
+    let mut v = vec![(1 << 20) + 16, ten, s1728, (128 << 20) - 16, (255 << 20) + 999, big];
     if !quick {
+        v.extend([1 << 20, 5 << 20, 12 << 20, (127 << 20) + 1038090, 128 << 20, (1000 << 20) + 123456]);
         // one size just below, at and above every power of two, sizes with every low nibble pattern, odd z
         v.extend([(10 << 20) + 15, (128 << 20) + 32, 256 << 20, (300 << 20) + 7777, 512 << 20, 1024 << 20, (2047 << 20) + 1038090, i32::MAX]);
         for k in 20..=30 {
@@ -740,7 +741,7 @@ fn main() {
         let n = total(&tr);
         let batches = n.div_ceil(BATCH);
         let bounds = if ctx.quick() {
-            format!("{n} fix_word patterns: all |x| < 2^25 (= |value| < 32.0), +-4096 around +-2^k for k = 25..31, and the unit intervals at +-100, 999, 1000, 2046, 2047; {BATCH} per generated property list ({batches} lists)")
+            format!("{n} fix_word patterns: all |x| < 2^24 (= |value| < 16.0), +-4096 around +-2^k for k = 24..31, and the unit intervals at +-100, 999, 1000, 2046, 2047; {BATCH} per generated property list ({batches} lists)")
         } else {
             format!("all 2^32 fix_word patterns, {BATCH} per generated property list ({batches} lists)")
         };
@@ -799,7 +800,7 @@ fn main() {
             }
             check_compress(i, &seq, limit as u8, acc, &|| json!({"kind": "compress", "values": seq, "limit": limit}));
         });
-        let bits = ctx.pick(16usize, 20usize);
+        let bits = ctx.pick(15usize, 20usize);
         let lats = &lats;
         let per_subset = (bits * TRANSFORMS.len()) as u64;
         let n = 2 * (1u64 << bits) * per_subset;
@@ -834,7 +835,7 @@ fn main() {
     }
     // ---- part 4
     {
-        let nmax = ctx.pick(7usize, 8usize);
+        let nmax = ctx.pick(6usize, 8usize);
         for n in 1..=nmax {
             let radices = nl_space(n);
             ctx.family(&format!("nextlarger-{n}"), &format!("every partial functional graph on {n} characters (codes {:?}), every 'character exists' mask on the first {} of them, TFtoPL (drop) and PLtoTF (keep) mode, edges given in ascending and descending order", &CODES[..n], n.min(4)), vcore::product(&radices), |i, acc| {
